@@ -531,7 +531,7 @@ class UBCalculation:
         np.ndarray:
             Surface normal vector represented as (3,1) NumPy array.
         """
-        if self.UB is None and not self.reference.rlv:
+        if self.UB is None and not self.surface.rlv:
             return None
         return self.surface.get_array(None if self.surface.rlv else self.UB)
 
